@@ -579,7 +579,7 @@ def run(check):
     replay_witnesses(check)
     replay_repaired(check)
     replay_not_full(check)
-    if not check.violations:
+    if not check.has_failing():
         files_on_disk_part(check)
     check.assumptions += [
         "partial strength: the Lean theorems prove lexical well-formedness (comments, string literals and brackets closed: `wellBracketed`), the "
